@@ -30,13 +30,16 @@ TErrs == /\ Ev.e = "Errs" /\ st' = [st EXCEPT ![Ev.s] = Fold(@, Ev.v, 1)] /\ UNC
 \* ---- acceptance regions (nominal sd = 64 units, B2 = 4096) ----
 SdIs64(s, s32) == LET r == ISqrt(s.n) IN Abs(Var(s) - 4096) * r <= 4096 * 12 + (8192 * r) \div s32 + 4096
 Uniform16(h, n) == \A k \in 1..16 : Abs(16 * h[k] - n) <= 31 * (ISqrt(n) + 1)
+\* every coordinate of every mask is fresh: a coordinate repeats the same coordinate of the previous mask with probability 2^-32;
+\* up to 2 + npairs/2^29 coincidences are accepted (eight times the expectation plus two; false-alarm probability < 1e-11 per stream)
+FreshCoords(same, npairs) == same <= 2 + npairs \div 536870912
 StreamOK(s, ev) == IF ev.exact = 1 THEN s.mx = 0 /\ s.s2 = 0                                   \* alpha = 0: noiseless, exactly
                    ELSE /\ s.n >= 500
                         /\ SdIs64(s, ev.s32)                                                     \* neither larger (correctness) nor smaller (security)
                         /\ Abs(s.s1) <= 8 * 64 * (ISqrt(s.n) + 1) + s.n                          \* centred: |mean| <= 8 sigma / sqrt(n)  (+1 unit of rounding per sample)
                         /\ s.mx < 640 + 64                                                       \* no sample beyond 10 sigma
 TEnd == /\ Ev.e = "StreamEnd"
-        /\ verdict' = (verdict /\ StreamOK(st[Ev.s], Ev) /\ Uniform16(Ev.hist, Ev.nmask))
+        /\ verdict' = (verdict /\ StreamOK(st[Ev.s], Ev) /\ Uniform16(Ev.hist, Ev.nmask) /\ FreshCoords(Ev.same, Ev.npairs))
         /\ UNCHANGED <<st, memo, seen, nrand>>
 TKeyBits == /\ Ev.e = "KeyBits" /\ verdict' = (verdict /\ Abs(2 * Ev.ones - Ev.n) <= 8 * (ISqrt(Ev.n) + 1)) /\ UNCHANGED <<st, memo, seen, nrand>>
 TDigit0 == /\ Ev.e = "Digit0" /\ verdict' = (verdict /\ Ev.nontrivial = 0 /\ Ev.rows > 0) /\ UNCHANGED <<st, memo, seen, nrand>>
